@@ -264,24 +264,27 @@ func (w *World) NewNodeFor(g int, inst *sim.Instance, created time.Time) *v1.Nod
 
 // PodSpec is the reified description of a pod to create.
 type PodSpec struct {
-	Group    int    `json:"g"`              // group it selects (-1: none)
-	Via      string `json:"via"`            // "selector" | "affinity" | "none"
-	CPU      int64  `json:"cpu"`            // millicores (single container)
-	Mem      int64  `json:"mem"`            // bytes
-	Node     string `json:"node,omitempty"` // bound node ("" = pending)
-	Daemon   bool   `json:"daemon,omitempty"`
-	Static   bool   `json:"static,omitempty"`
-	InitCPU  int64  `json:"initCPU,omitempty"`
-	InitMem  int64  `json:"initMem,omitempty"`
-	OverCPU  int64  `json:"overCPU,omitempty"`
-	OverMem  int64  `json:"overMem,omitempty"`
-	Split    int    `json:"split,omitempty"` // number of containers the request is split over (>=1)
+	Group   int    `json:"g"`              // group it selects (-1: none)
+	Via     string `json:"via"`            // "selector" | "affinity" | "none"
+	CPU     int64  `json:"cpu"`            // millicores (single container)
+	Mem     int64  `json:"mem"`            // bytes
+	Node    string `json:"node,omitempty"` // bound node ("" = pending)
+	Daemon  bool   `json:"daemon,omitempty"`
+	Static  bool   `json:"static,omitempty"`
+	InitCPU int64  `json:"initCPU,omitempty"`
+	InitMem int64  `json:"initMem,omitempty"`
+	OverCPU int64  `json:"overCPU,omitempty"`
+	OverMem int64  `json:"overMem,omitempty"`
+	Split   int    `json:"split,omitempty"` // number of containers the request is split over (>=1)
 	// Cross adds a required node-affinity expression that mentions another group without selecting it:
 	// "notin:<g>" = (g's key NotIn [g's value]), "otherkey:<g>" = (unrelated key In [g's value]), "exists:<g>" = (g's key Exists)
-	Cross string `json:"cross,omitempty"`
+	Cross    string `json:"cross,omitempty"`
 	Finished bool   `json:"finished,omitempty"`
 	// BoundPending: bound to Node but still in phase Pending (scheduled, containers not started yet)
 	BoundPending bool `json:"boundPending,omitempty"`
+	// Age: the pod was created this many seconds ago (it may predate the node it is bound to:
+	// pods wait for the scale-up that brings their node)
+	Age int64 `json:"age,omitempty"`
 }
 
 // NewPod materialises a PodSpec.
@@ -370,7 +373,7 @@ func (w *World) NewPod(s PodSpec) *v1.Pod {
 	// brings for them)
 	w.uidSeq++
 	p.UID = types.UID(fmt.Sprintf("uid-%d", w.uidSeq))
-	p.CreationTimestamp = metav1.NewTime(time.Now().Truncate(time.Second))
+	p.CreationTimestamp = metav1.NewTime(time.Now().Add(-time.Duration(s.Age) * time.Second).Truncate(time.Second))
 	p.Spec.NodeName = s.Node
 	switch {
 	case s.Finished:
@@ -393,23 +396,23 @@ func (w *World) NewPod(s PodSpec) *v1.Pod {
 // Action is one reified step of a history. Every field is a concrete value so that a
 // recorded history can be replayed without drawing.
 type Action struct {
-	Op     string        `json:"op"`
-	Group  int           `json:"g,omitempty"`
-	Node   string        `json:"node,omitempty"`
-	N      int           `json:"n,omitempty"`
-	M      int           `json:"m,omitempty"`
-	D      time.Duration `json:"d,omitempty"`
-	Key    string        `json:"key,omitempty"`
-	Val    string        `json:"val,omitempty"`
-	Effect string        `json:"effect,omitempty"`
-	Flag   bool          `json:"flag,omitempty"`
-	Order  []string      `json:"order,omitempty"`
-	Pods   []PodSpec     `json:"pods,omitempty"`
-	Names  []string      `json:"names,omitempty"`
-	Faults []sim.Fault   `json:"faults,omitempty"`
+	Op     string         `json:"op"`
+	Group  int            `json:"g,omitempty"`
+	Node   string         `json:"node,omitempty"`
+	N      int            `json:"n,omitempty"`
+	M      int            `json:"m,omitempty"`
+	D      time.Duration  `json:"d,omitempty"`
+	Key    string         `json:"key,omitempty"`
+	Val    string         `json:"val,omitempty"`
+	Effect string         `json:"effect,omitempty"`
+	Flag   bool           `json:"flag,omitempty"`
+	Order  []string       `json:"order,omitempty"`
+	Pods   []PodSpec      `json:"pods,omitempty"`
+	Names  []string       `json:"names,omitempty"`
+	Faults []sim.Fault    `json:"faults,omitempty"`
 	Fleet  *sim.FleetPlan `json:"fleet,omitempty"`
-	Ages   []int64       `json:"ages,omitempty"` // seconds
-	Seq    []Action      `json:"seq,omitempty"`  // "seq": sub-actions executed in order (recorded individually)
+	Ages   []int64        `json:"ages,omitempty"` // seconds
+	Seq    []Action       `json:"seq,omitempty"`  // "seq": sub-actions executed in order (recorded individually)
 }
 
 func (a Action) String() string {
@@ -417,7 +420,7 @@ func (a Action) String() string {
 	add := func(f string, args ...any) { s += " " + fmt.Sprintf(f, args...) }
 	switch a.Op {
 	case "scan":
-		add("sync=%v order=%v", a.Flag, a.Order)
+		add("sync=%v%s order=%v", a.Flag, map[bool]string{true: " (pods only)", false: ""}[a.Val == "pods" && !a.Flag], a.Order)
 	case "advance":
 		add("%v", a.D)
 	case "addPods", "setPods":
@@ -497,6 +500,9 @@ func (w *World) Apply(a Action) (rec *ScanRecord, ok bool) {
 	ok = true
 	switch a.Op {
 	case "scan":
+		if a.Val == "pods" && !a.Flag { // only the pod informer has caught up
+			w.V.SyncPods(w.Pods)
+		}
 		rec = w.Scan(a.Flag, a.Order)
 	case "advance":
 		if a.D > 0 && a.D < 1000*24*time.Hour {
